@@ -328,6 +328,13 @@ def _check_indexing(repo, r5, ci, init):
                         bad = c[2][0]
             if ps.ret is not None and any(ps.ret in _bit_forms(p) for p in _pos_forms(sp)):
                 int_ok = True
+            if ps.ret is not None and ps.ret[0] == "mapc":
+                # the same bits collected by a comprehension over the positions
+                lv = ("elem", ps.ret[2])
+                if lv in loopvars and any(ps.ret[1] in _bit_forms(p) for p in _pos_forms(lv)):
+                    slice_ok = True
+                else:
+                    bad = ps.ret[1]
         r5.require(slice_ok and bad is None, gi, "__getitem__ slice reads bit (len - position - 1)",
                    "Bitset.__getitem__ no longer collects bool(value & (1 << (len - position - 1))) for every position of range(*slice.indices(len))%s" % (
                        " (collects %s)" % S.show(bad)[:100] if bad else ""))
